@@ -8,6 +8,28 @@ def chk(i, level, text, note, technique, ref):
 
 exec(open('/verif/tools/manifest_table.py').read())
 
+# dimensions added after the second round of seeded changes (DESIGN.md section 8.3)
+ADDENDA = {
+ "C02": "A share of runs passes --require-owner / --show-duplicates; hostile scalars on the last line of a file; quoted UTF-8 label names with regexp metacharacters.",
+ "C03": "Plus a stratum in which the base version of a touched file holds several identical copies of a rule, judged by counting (exactly min(base, head) copies keep an identical partner).",
+ "C04": "Join templates include a many side that lost a label which a group_left/right(a, b) modifier copies back.",
+ "C06": "Plus documents embedded one or two block scalars deep, and a caret monitor: the real InjectDiagnostics is rendered for sampled sub-ranges of every correctly positioned field (values with multi-byte characters mixed in) and the carets must sit under exactly the addressed characters.",
+ "C07": "Plus pairs of comments for the same check (expired snooze before/after, same comment twice) and `pint watch` runs in which snoozes expire while the process lives, judged per iteration on the times pint itself recorded.",
+ "C08": "Plus the flag combinations --offline --enabled N and --disabled N --offline.",
+ "C10": "Second relation: sequences of one to three exclusion units inserted at every between-rules gap must only shift the line numbers of what follows; payloads include multi-byte text.",
+ "C11": "Workloads also cover the same files reached under several spellings of their path and files with lone-CR line breaks.",
+ "C13": "Plus scenarios in which one or more slices are never delivered (client deadline, caller cancellation, 13 server-side failure kinds) while the others answer: a nil error with an incomplete result is a violation; a second healthy query checks nothing was remembered as empty.",
+ "C14": "Plus range questions asked by callers with their own logical now (moving last slice) under sequential, burst and wave arrival.",
+ "C15": "Plus failures delivered in the body of a 2xx response on every endpoint, and bursts of distinct requests that queue inside pint on a healthy but throttled upstream (k reported timeouts on c workers need a window of ceil(k/c) x timeout).",
+ "C16": "Expressions include joins against an always-returning side; selectors under an `or vector(n)` fallback are documented exemptions. Thorough tier only: a nine-minute `pint watch` run in which a metric appears on the server; an iteration starting more than cache lifetime + sweep period + interval + 30 s later must not report it missing (bounded progress, judged on pint's own timestamps).",
+ "C18": "Pattern values include ones whose validity depends on how they are wrapped before compilation.",
+ "C19": "Wrappers include a rule list that is itself an item of a list.",
+ "C20": "Plus files that lose a rule and gain an unparsable bystander rule.",
+}
+for _i, _t in ADDENDA.items():
+    CHECKS[_i]['text'] += " " + _t
+    CHECKS[_i]['ref'] += " and §8.3"
+
 hook_commits = subprocess.run(['git','-C','/repo','log','--format=%H %s'],capture_output=True,text=True).stdout.splitlines()
 hook_commits = [l.split()[0] for l in hook_commits if l.split(' ',1)[1].startswith('verif:')]
 all_ids = [json.loads(l)['id'] for l in open('/verif/properties.jsonl')]
